@@ -180,7 +180,7 @@ def cross_parameter():
     obs = []
     X = np.random.RandomState(0).normal(size=(8, 2))
 
-    def expect_raise(name, make, fit_args=(X,), fn=""):
+    def expect_raise(name, make, fit_args=(X,), fn="", unfitted=True):
         with warnings.catch_warnings():
             warnings.simplefilter("ignore")
             m = make()
@@ -189,8 +189,11 @@ def cross_parameter():
                 ok, det = False, {"problem": "fit succeeded"}
             except (ValueError, TypeError) as e:
                 try:
-                    m.predict(X)
-                    ok, det = False, {"problem": "predict returns after the failed fit"}
+                    if unfitted:
+                        m.predict(fit_args[0])
+                        ok, det = False, {"problem": "predict returns after the failed fit"}
+                    else:
+                        ok, det = True, {"raised": repr(e)[:100]}
                 except Exception:
                     ok, det = True, {"raised": repr(e)[:100]}
             except Exception as e:
@@ -202,6 +205,31 @@ def cross_parameter():
     for ln in (1, 3):
         expect_raise(f"Douglas(feature_mask of length {ln}) on 2 features is rejected",
                      lambda: Douglas(n_clusters=2, max_iter=1, feature_mask=np.array([True] * ln)), fn="gemclus.tree.douglas.Douglas.fit")
+    # masks of the wrong length / shape whatever their content (too short, too long with False beyond the last feature, 2-D)
+    for tag, mask in (("[True] on 2 features", np.array([True])), ("[True, False, False] on 2 features", np.array([True, False, False])),
+                      ("[False, True, False, False] on 2 features", np.array([False, True, False, False])), ("2-D (1, 2) mask", np.array([[True, True]]))):
+        expect_raise(f"Douglas(feature_mask = {tag}) is rejected", lambda: Douglas(n_clusters=2, max_iter=1, feature_mask=mask),
+                     fn="gemclus.tree.douglas.Douglas.fit")
+    # a precomputed kernel / metric that is not supplied is an inconsistent combination -- also when X happens to be square
+    # (a square X must not be taken for the missing matrix)
+    from .forwarding import estimators_all
+    import inspect
+    Xsq = np.abs(np.random.RandomState(1).normal(size=(6, 6)))
+    for cls in estimators_all():
+        params = inspect.signature(cls.__init__).parameters
+        for opt in ("kernel", "metric"):
+            if opt in params:
+                kw = {"max_clusters": 2} if cls.__name__ == "Kauri" else {"n_clusters": 2, "max_iter": 1}
+                for tag, Xd in (("square data", Xsq), ("tall data", X)):
+                    # (the property asks for an error here -- C11: "a missing matrix is an error"; that the parameters initialised before the
+                    # affinity is computed are left behind is outside its statement about out-of-domain hyper-parameters)
+                    expect_raise(f"{cls.__name__}({opt}='precomputed') fitted without the matrix on {tag} raises a ValueError / TypeError",
+                                 lambda: cls(**kw, **{opt: "precomputed"}), fit_args=(Xd,), fn=f"{cls.__module__}.{cls.__name__}.fit", unfitted=False)
+    from gemclus.gemini import MMDGEMINI, WassersteinGEMINI
+    from gemclus.linear import LinearModel
+    for g, nm in ((MMDGEMINI(kernel="precomputed"), "MMDGEMINI(kernel='precomputed')"), (WassersteinGEMINI(metric="precomputed"), "WassersteinGEMINI(metric='precomputed')")):
+        expect_raise(f"LinearModel(gemini={nm}) fitted without the matrix on square data raises a ValueError / TypeError",
+                     lambda: LinearModel(n_clusters=2, max_iter=1, gemini=g), fit_args=(Xsq,), fn="gemclus._base_gemini.DiscriminativeModel.fit", unfitted=False)
     for g in ([[0, 1], [1]], [[0, 5]], [[-1]], [[0], [0]], 3, "ab", [[0, 1], [0]]):
         for cls in (SparseLinearMMD, SparseMLPMMD):
             expect_raise(f"{cls.__name__}(groups={g!r}) on 2 features is rejected", lambda: cls(n_clusters=2, max_iter=1, groups=g),
